@@ -1,8 +1,10 @@
-(* C03 proofs: the invariant holds for both forms (before / after the repair) of the two repaired
-   sites: run_op_v v for every v. *)
+(* C03 proofs: the invariant holds for both forms (before / after the repair) of the repaired
+   sites: run_op_v v for every v.  With the repaired to_outgroup_position (v_outgroup_first) the coverage
+   is covered3: EVERY live outgroup node, with or without suppression, and every pick of
+   randomly_reorient - the exclusions of covered2 belong to the old form only. *)
 From Coq Require Import ZArith List Bool Lia.
 From DV Require Import Model.PyPrims Model.Tree Model.Heap Model.HeapOps
-  Proofs.C03Base Proofs.C03Abs Proofs.C03PruneLoops Proofs.C03Hist Proofs.C03Hist2.
+  Proofs.C03Base Proofs.C03Abs Proofs.C03PruneLoops Proofs.C03Hist Proofs.C03Hist2 Proofs.C03Outgroup.
 Import ListNotations.
 Open Scope Z_scope.
 
@@ -23,10 +25,24 @@ Proof.
   - exists h'. split; [exact W|right; exists e; reflexivity].
 Qed.
 
-Theorem op_wf_variants_l v h o : WF h -> covered2 h o -> ends_wf (run_op_v v o h).
+(* coverage for the repaired to_outgroup_position *)
+Definition covered3 (h : heap) (o : op) : Prop :=
+  match o with
+  | OToOutgroup og _ _ => live h og
+  | ORandomlyReorient pick perms ub => randomly_reorient_r pick perms ub h <> HFuel
+  | _ => covered2 h o
+  end.
+
+Definition covered_v (v : variants) (h : heap) (o : op) : Prop :=
+  if v_outgroup_first v then covered3 h o else covered2 h o.
+
+Lemma op_wf_variants_old v h o : WF h -> covered2 h o ->
+  (forall og ub su, o <> OToOutgroup og ub su) -> (forall pick perms ub, o <> ORandomlyReorient pick perms ub) ->
+  ends_wf (run_op_v v o h).
 Proof.
-  intros W C. pose proof (op_wf2_l h o W C) as E.
+  intros W C N1 N2. pose proof (op_wf2_l h o W C) as E.
   destruct o; try exact E; unfold run_op_v.
+  - exfalso. eapply N1. reflexivity.
   - destruct (v_seed_guard v); [apply ends_wf_relabel|]; exact E.
   - assert (E' : ends_wf (if v_seed_guard v
                           then relabel_err AttrErr OtherErr (run_op (OPruneNodes nodes plwt ub su) h)
@@ -35,13 +51,25 @@ Proof.
     cbv zeta. destruct (v_prune_nodes_tail v && negb plwt); [apply ends_wf_tail|]; exact E'.
   - destruct (v_seed_guard v); [apply ends_wf_relabel|]; exact E.
   - destruct (v_seed_guard v); [apply ends_wf_relabel|]; exact E.
+  - exfalso. eapply N2. reflexivity.
+Qed.
+
+Theorem op_wf_variants_l v h o : WF h -> covered_v v h o -> ends_wf (run_op_v v o h).
+Proof.
+  intros W C. unfold covered_v in C. destruct (v_outgroup_first v) eqn:Hv.
+  - destruct o; try (apply op_wf_variants_old; [exact W|exact C|discriminate|discriminate]).
+    + unfold run_op_v. rewrite Hv. apply to_outgroup_r_ends; assumption.
+    + unfold run_op_v. rewrite Hv. apply randomly_reorient_r_ends; assumption.
+  - destruct o; try (apply op_wf_variants_old; [exact W|exact C|discriminate|discriminate]).
+    + unfold run_op_v. rewrite Hv. exact (op_wf2_l h _ W C).
+    + unfold run_op_v. rewrite Hv. exact (op_wf2_l h _ W C).
 Qed.
 
 Fixpoint valid_hist_v (v : variants) (ops : list op) (h : heap) : Prop :=
   match ops with
   | [] => True
   | o :: r =>
-    covered2 h o /\
+    covered_v v h o /\
     forall h', (run_op_v v o h = HOk h' \/ exists e, run_op_v v o h = HErr e h') -> valid_hist_v v r h'
   end.
 
@@ -56,5 +84,5 @@ Proof.
 Qed.
 
 (* the unrepaired form is the plain interpreter *)
-Lemma run_op_v_old o h : run_op_v (mkVariants false false) o h = run_op o h.
+Lemma run_op_v_old o h : run_op_v (mkVariants false false false) o h = run_op o h.
 Proof. destruct o; reflexivity. Qed.
